@@ -5,6 +5,8 @@
 -/
 import PyModeS.Py.Val
 import PyModeS.Model.CPR
+import PyModeS.Model.Aero
+import PyModeS.Py.FloatBridge
 
 namespace PyModeS.Gen.Ext
 open PyModeS PyModeS.Py
@@ -26,5 +28,53 @@ def common_floor (x : Val) : Res Val :=
   match x.num? with
   | some q => .val (Val.ofInt q.floor)
   | none => .exc
+
+/-- `time.time()`: time stamps are attached to messages but no property depends on their value -/
+def time_time : Res Val := .val (.num 0)
+
+/-- `aero.mach2cas(mach, h)` evaluated in double precision (the polymorphic model of extra/aero.py at `Float`,
+    property C20); the argument and the result cross the boundary exactly -/
+def aero_mach2cas (mach h : Val) : Res Val :=
+  match mach.num?, h.num? with
+  | some m, some x => .val (.num (floatToRat (PyModeS.Aero.mach2cas (ratToFloat m) (ratToFloat x))))
+  | _, _ => .exc
+
+/-! ### libm / numpy scalar functions, evaluated in double precision -/
+
+def float1 (f : Float → Float) (x : Val) : Res Val :=
+  match x.num? with
+  | some q =>
+    let r := f (ratToFloat q)
+    if r.isNaN || r.isInf then .exc else .val (.num (floatToRat r))
+  | none => .exc
+
+def math_sqrt (x : Val) : Res Val :=
+  match x.num? with
+  | some q => if q < 0 then .exc else float1 Float.sqrt x
+  | none => .exc
+def math_log10 (x : Val) : Res Val :=
+  match x.num? with
+  | some q => if q ≤ 0 then .exc else float1 Float.log10 x
+  | none => .exc
+def math_atan2 (y x : Val) : Res Val :=
+  match y.num?, x.num? with
+  | some a, some b => .val (.num (floatToRat (Float.atan2 (ratToFloat a) (ratToFloat b))))
+  | _, _ => .exc
+def np_pi : Val := .num (floatToRat (Float.acos (-1.0)))
+def math_degrees (x : Val) : Res Val := float1 (fun r => r * (180.0 / Float.acos (-1.0))) x
+def np_cos (x : Val) : Res Val := float1 Float.cos x
+def np_arccos (x : Val) : Res Val := float1 Float.acos x
+def np_floor (x : Val) : Res Val :=
+  match x.num? with
+  | some q => .val (Val.ofInt q.floor)
+  | none => .exc
+/-- `np.isclose(a, b)` with the default tolerances `rtol = 1e-5`, `atol = 1e-8` -/
+def np_isclose (a b : Val) : Res Val :=
+  match a.num?, b.num? with
+  | some x, some y =>
+    let d := if x - y < 0 then y - x else x - y
+    let ay := if y < 0 then -y else y
+    .val (.bool (decide (d ≤ (1 : Rat) / 100000000 + (1 : Rat) / 100000 * ay)))
+  | _, _ => .exc
 
 end PyModeS.Gen.Ext
